@@ -46,6 +46,16 @@
 (*               of several written entries with one wire key only one     *)
 (*               value travels                                             *)
 (*                                                                         *)
+(*   RetryUnavailable  the transport repeats a call the target answered    *)
+(*               with UNAVAILABLE (a retry policy in the dial options)     *)
+(*                                                                         *)
+(* Answers.  A step carries `ans`: the status the TARGET answers this call *)
+(* with ("OK" or a gRPC status name).  Whatever the answer, the server     *)
+(* receives the call exactly ONCE per execution of the step (ReceivedOnce) *)
+(* and the step's one sample carries that answer: 200 for OK, otherwise    *)
+(* the failed code of the answered status (StatusCode).  An error answer   *)
+(* does not end a scenario execution (modelled, not judged).               *)
+(*                                                                         *)
 (* Metadata keys (the rule).  gRPC metadata keys are case-insensitive      *)
 (* ASCII and travel in lower case: a key written "AUTH" or "Auth" arrives  *)
 (* as "auth" (WireKey).  Entries whose keys differ only in case are ONE    *)
@@ -69,7 +79,7 @@ EXTENDS Integers, Sequences, FiniteSets, TLC
 CONSTANTS MaxGuns,      \* gun identities 1..MaxGuns (one warm-up gun + one per instance)
           MaxShots,     \* bound on scenario shots per run (design level only)
           KeepLog,      \* keep the log of received calls (design level); the trace spec checks on the fly
-          InPlace, AbortOnBad, DropMd, SharedDialsReflect, ScenarioDeadline, DirtyAfterFail, LeakMd, KeepDefaults, LastWins
+          InPlace, AbortOnBad, DropMd, SharedDialsReflect, ScenarioDeadline, DirtyAfterFail, LeakMd, KeepDefaults, LastWins, RetryUnavailable
 
 VARIABLES kind,     \* "json" | "scn"
           file,     \* sequence of entries [name, steps]
@@ -123,6 +133,19 @@ LegalKey(k) == k \notin {"a b", "nonascii-key"}            \* a blank in the key
 MdLegal(m) == LegalKey(m.k) /\ (m.vf = "utf8" => IsBinKey(m.k))
 \* why a step is never sent: as declared (unknown method, ill-typed payload, ...) or metadata that cannot be attached
 Bad(s) == IF s.bad # "none" THEN s.bad ELSE IF \E m \in s.md : ~MdLegal(m) THEN "badmd" ELSE "none"
+\* the sample code of an answered status (components/guns/grpc/core.go ConvertGrpcStatus; docs: grpc-generator.md)
+StatusCode(a) == CASE a = "OK" -> 200
+                   [] a = "CANCELLED" -> 499          [] a = "UNKNOWN" -> 500
+                   [] a = "INVALID_ARGUMENT" -> 400   [] a = "DEADLINE_EXCEEDED" -> 504
+                   [] a = "NOT_FOUND" -> 404          [] a = "ALREADY_EXISTS" -> 409
+                   [] a = "PERMISSION_DENIED" -> 403  [] a = "RESOURCE_EXHAUSTED" -> 429
+                   [] a = "FAILED_PRECONDITION" -> 400 [] a = "ABORTED" -> 409
+                   [] a = "OUT_OF_RANGE" -> 400       [] a = "UNIMPLEMENTED" -> 501
+                   [] a = "INTERNAL" -> 500           [] a = "UNAVAILABLE" -> 503
+                   [] a = "DATA_LOSS" -> 500          [] a = "UNAUTHENTICATED" -> 401
+Statuses == {"OK", "CANCELLED", "UNKNOWN", "INVALID_ARGUMENT", "DEADLINE_EXCEEDED", "NOT_FOUND", "ALREADY_EXISTS", "PERMISSION_DENIED",
+             "RESOURCE_EXHAUSTED", "FAILED_PRECONDITION", "ABORTED", "OUT_OF_RANGE", "UNIMPLEMENTED", "INTERNAL", "UNAVAILABLE", "DATA_LOSS",
+             "UNAUTHENTICATED"}
 \* a rendered metadata entry as the server sees it
 Wire(m) == [k |-> WireKey(m.k), pre |-> m.pre, tok |-> m.tok]
 Render(x, t) == [x EXCEPT !.tok = IF x.tok = "" THEN t ELSE x.tok]
@@ -199,7 +222,8 @@ SendAct(g, rec, newShared, newCache, drawn, srv, newScratch) ==
     /\ srv = conn[g]
     /\ rcfg.T = 0 \/ clk[g] < rcfg.T                   \* the call starts with budget left
     /\ sh' = [sh EXCEPT ![g].ph = "sample"]
-    /\ recvlog' = IF KeepLog THEN recvlog \cup {[idx |-> sh[g].idx, step |-> sh[g].step, rec |-> rec, srv |-> srv]} ELSE recvlog
+    /\ recvlog' = IF KeepLog THEN recvlog \cup {[idx |-> sh[g].idx, step |-> sh[g].step, rec |-> rec, srv |-> srv,
+                                                  n |-> Cardinality({r \in recvlog : r.idx = sh[g].idx /\ r.step = sh[g].step})]} ELSE recvlog
     /\ shared' = newShared /\ cache' = newCache /\ nx' = nx + drawn
     /\ scratch' = newScratch
     /\ UNCHANGED <<kind, file, ninst, gst, started, done, stopped, nsample, xvars, dirty>>
@@ -216,10 +240,10 @@ Sample(g, tag, ok) ==
           /\ sh' = [sh EXCEPT ![g] = IF Bad(CurStep(g)) = "badmd" /\ sh[g].step < Len(file[sh[g].idx].steps)
                                      THEN [@ EXCEPT !.step = @ + 1, !.ph = "call", !.failed = TRUE]
                                      ELSE [@ EXCEPT !.ph = "end", !.failed = TRUE]]
-       \/ /\ sh[g].ph = "sample" /\ ok                                  \* answered by the target
+       \/ /\ sh[g].ph = "sample" /\ ok = (CurStep(g).ans = "OK")          \* answered by the target: ok iff the answer is OK
           /\ sh' = [sh EXCEPT ![g] = IF sh[g].step < Len(file[sh[g].idx].steps)
-                                     THEN [@ EXCEPT !.step = @ + 1, !.ph = "call"]
-                                     ELSE [@ EXCEPT !.ph = "end"]]
+                                     THEN [@ EXCEPT !.step = @ + 1, !.ph = "call", !.failed = @ \/ ~ok]
+                                     ELSE [@ EXCEPT !.ph = "end", !.failed = @ \/ ~ok]]
     /\ nsample' = [nsample EXCEPT ![sh[g].idx] = IF ok THEN [@ EXCEPT !.ok = @ + 1] ELSE [@ EXCEPT !.fail = @ + 1]]
     \* per-call deadline: the next call starts a fresh one; the step's sleep is not charged to anything
     /\ clk' = [clk EXCEPT ![g] = IF ScenarioDeadline /\ ok THEN @ + CurStep(g).sleep ELSE 0]
@@ -233,6 +257,15 @@ ShootEnd(g) ==
     /\ stopped' = IF AbortOnBad /\ sh[g].failed THEN stopped \cup {g} ELSE stopped
     /\ sh' = [sh EXCEPT ![g] = Idle]
     /\ UNCHANGED <<kind, file, ninst, gst, started, shared, cache, nx, recvlog, nsample, xvars, gvars>>
+
+\* (negative control) the transport sends the call again after an UNAVAILABLE answer
+Resend(g) ==
+    /\ RetryUnavailable /\ KeepLog
+    /\ sh[g].ph = "sample" /\ CurStep(g).ans = "UNAVAILABLE"
+    /\ Cardinality({r \in recvlog : r.idx = sh[g].idx /\ r.step = sh[g].step}) < 2 * (done[sh[g].idx] + 1)
+    /\ \E r \in recvlog : /\ r.idx = sh[g].idx /\ r.step = sh[g].step
+                          /\ recvlog' = recvlog \cup {[r EXCEPT !.n = Cardinality({q \in recvlog : q.idx = r.idx /\ q.step = r.step})]}
+    /\ UNCHANGED <<kind, file, ninst, gst, sh, started, done, stopped, shared, cache, nx, nsample, xvars, gvars>>
 
 (*********** what the modelled gun puts on the wire (design level) **********)
 Tok(n) == "t" \o ToString(n)   \* the n-th value of the variable source (opaque)
@@ -270,8 +303,9 @@ Next ==
     \/ \E g \in Guns, i \in 0..(ninst - 1) : Bind(g, i)
     \/ \E g \in Guns, idx \in DOMAIN file : (kind = "scn" => Shots < MaxShots) /\ ShootBegin(g, idx, 0)
     \/ \E g \in Guns : ModelSend(g)
-    \/ \E g \in Guns : sh[g].ph \in {"call", "sample"} /\ Sample(g, CurStep(g).tag, sh[g].ph = "sample")
+    \/ \E g \in Guns : sh[g].ph \in {"call", "sample"} /\ Sample(g, CurStep(g).tag, sh[g].ph = "sample" /\ CurStep(g).ans = "OK")
     \/ \E g \in Guns : ShootEnd(g)
+    \/ \E g \in Guns : Resend(g)
 
 (****************************** properties *********************************)
 TypeOK ==
@@ -300,8 +334,11 @@ FirstBad(e) == IF \E j \in DOMAIN e.steps : Aborts(e.steps[j])
                THEN CHOOSE j \in DOMAIN e.steps : Aborts(e.steps[j]) /\ \A jj \in 1..(j - 1) : ~Aborts(e.steps[jj])
                ELSE 0
 Executed(e) == IF FirstBad(e) = 0 THEN DOMAIN e.steps ELSE 1..FirstBad(e)
-ExpOk(e)   == Cardinality({j \in Executed(e) : Bad(e.steps[j]) = "none"})
-ExpFail(e) == Cardinality({j \in Executed(e) : Bad(e.steps[j]) # "none"})
+ExpOk(e)   == Cardinality({j \in Executed(e) : Bad(e.steps[j]) = "none" /\ e.steps[j].ans = "OK"})
+ExpFail(e) == Cardinality({j \in Executed(e) : Bad(e.steps[j]) # "none" \/ e.steps[j].ans # "OK"})
+\* whatever the target answers, it receives every executed good step exactly once per execution
+ExpSent(e) == Cardinality({j \in Executed(e) : Bad(e.steps[j]) = "none"})
+ReceivedOnce == (KeepLog /\ AllIdle) => \A i \in DOMAIN file : Cardinality({r \in recvlog : r.idx = i}) = done[i] * ExpSent(file[i])
 \* once nothing is in flight, every finished execution reported exactly the samples of its steps
 SamplesExact == AllIdle => \A i \in DOMAIN file : /\ nsample[i].ok = done[i] * ExpOk(file[i])
                                                    /\ nsample[i].fail = done[i] * ExpFail(file[i])
